@@ -1777,6 +1777,9 @@ def str_method(name):
     def m(eng, s, *args, **kw):
         if name == 'format' and isinstance(s, str) and s in getattr(eng, 'format_hooks', {}):
             return eng.format_hooks[s](eng, *args, **kw)      # a contract gives this template a meaning
+        if name == 'join' and isinstance(s, str) and s in getattr(eng, 'join_hooks', {}) and len(args) == 1 \
+                and not isinstance(args[0], (str, tuple, list)):
+            return eng.join_hooks[s](eng, args[0])            # ... or this separator joining symbolic pieces
         if isinstance(s, str) and all(isinstance(a, (str, int, tuple)) or a is None for a in args) \
                 and not any(_has_sym(a) for a in args):
             r = getattr(s, name)(*args, **kw)
@@ -1909,6 +1912,8 @@ def comprehension(eng, node, env, kind):
         finally:
             eng.spec -= 1
     res = IterV(it.n, get)
+    if hasattr(it, 'tag'):
+        res.tag = it.tag                 # what a contract attached to the traversed abstract collection
     if hasattr(it, 'shift'):
         res.shift = it.shift
     if kind == 'list':
